@@ -20,8 +20,10 @@ import (
 	"time"
 
 	"github.com/criyle/go-sandbox/container"
+	"github.com/criyle/go-sandbox/pkg/forkexec"
 	"github.com/criyle/go-sandbox/pkg/seccomp/libseccomp"
 	"github.com/criyle/go-sandbox/ptracer"
+	"github.com/criyle/go-sandbox/runner"
 	"pgregory.net/rapid"
 
 	"verif/internal/probe"
@@ -37,12 +39,13 @@ type c16Case struct {
 }
 
 var c16Points = map[string][]string{
-	"execve":  {"execve:sent", "execve:sync-reply", "execve:synced", "execve:ok-sent", "execve:wait", "syncfunc", "running"},
-	"ptrace":  {"syncfunc", "check0", "check3", "running"},
-	"unshare": {"syncfunc"}, // only the launch hand-shake (shared with the tracer's and the container's launches); a *running* namespace-runner program is outside the statement
-	"idle":    {"idle"},
-	"open":    {"before-open"},
-	"reset":   {"before-reset"},
+	"execve":        {"execve:sent", "execve:sync-reply", "execve:synced", "execve:ok-sent", "execve:wait", "syncfunc", "running"},
+	"ptrace":        {"syncfunc", "check0", "check3", "running"},
+	"ptrace-direct": {"syncfunc", "syncfunc-stopchild"},
+	"unshare":       {"syncfunc"}, // only the launch hand-shake (shared with the tracer's and the container's launches); a *running* namespace-runner program is outside the statement
+	"idle":          {"idle"},
+	"open":          {"before-open"},
+	"reset":         {"before-reset"},
 }
 
 func c16Program(shape int) *probe.Script {
@@ -106,6 +109,17 @@ func c16Controller() {
 			select {}
 		}
 	}
+	// the child is held (SIGSTOP) at the launch hand-shake while the controller goes on: the controller is then killed
+	// after the hand-shake but before its tracer has seen the child's first stop
+	stopChild := func(pid int) {
+		if c.Point == "syncfunc-stopchild" {
+			syscall.Kill(pid, syscall.SIGSTOP)
+			go func() {
+				time.Sleep(3 * time.Millisecond)
+				say("at syncfunc-stopchild")
+			}()
+		}
+	}
 	s := c16Program(c.Shape)
 	efd, err := probeExecFd()
 	if err != nil {
@@ -143,9 +157,33 @@ func c16Controller() {
 		say("started")
 		runTraced(tracedOpts{Script: s, Filter: filter, Handler: h, Tag: c.Tag, Timeout: time.Hour, SyncFunc: func(pid int) error {
 			say("pid %d", pid)
+			stopChild(pid)
 			block("syncfunc")
 			return nil
 		}})
+		say("done")
+	case "ptrace-direct":
+		// forkexec.Runner under ptracer.Tracer without the ptrace runner in between: Shape selects seccomp yes/no and a
+		// credential change yes/no (the program is a single sleeper: the tracer's no-seccomp mode does not follow forks)
+		var ps probe.Script
+		ps.Add("sleep:600000")
+		ps.Add("exit:0")
+		r := &forkexec.Runner{Args: ps.Argv(c.Tag, 3), Env: []string{"A=1"}, ExecFile: efd, Files: []uintptr{dn.Fd(), dn.Fd(), dn.Fd()}, Ptrace: true,
+			SyncFunc: func(pid int) error { say("pid %d", pid); stopChild(pid); block("syncfunc"); return nil }}
+		if c.Shape&1 != 0 {
+			f, err := buildFilter(nil, nil, libseccomp.ActionAllow)
+			if err != nil {
+				say("infra %v", err)
+				return
+			}
+			r.Seccomp = f.SockFprog()
+		}
+		if c.Shape&2 != 0 {
+			r.Credential = &syscall.Credential{Uid: 65534, Gid: 65534, NoSetGroups: true}
+		}
+		tr := ptracer.Tracer{Handler: c16NopHandler{}, Runner: r, Limit: runner.Limit{TimeLimit: time.Hour, MemoryLimit: 1 << 30}}
+		say("started")
+		tr.Trace(context.Background())
 		say("done")
 	default:
 		env, _, err := buildContainer(nil)
@@ -197,6 +235,11 @@ func c16Controller() {
 	}
 	time.Sleep(time.Hour)
 }
+
+type c16NopHandler struct{}
+
+func (c16NopHandler) Handle(*ptracer.Context) ptracer.TraceAction { return ptracer.TraceAllow }
+func (c16NopHandler) Debug(...interface{})                        {}
 
 func c16Run(c c16Case, rec *vh.Recorder) error {
 	self, err := os.Executable()
@@ -335,7 +378,7 @@ wait:
 	return nil
 }
 
-const c16Rule = "case = operation of a helper controller process in {container idle, Execve, Open loop, Reset loop, ptrace run} x program shape (single process; signal-ignoring forked tree; spinning grandchild; thread + forked child) x crash point in {each named host point of Execve (sent, sync-reply, synced, ok-sent, wait), inside SyncFunc, inside the first / fourth Handler callback (tracee stopped in a syscall), while the program runs, idle, before Open / Reset, or a random delay of 0..20 ms}; the harness SIGKILLs the controller there; " +
+const c16Rule = "case = operation of a helper controller process in {container idle, Execve, Open loop, Reset loop, ptrace run, forkexec.Runner driven by ptracer.Tracer directly with/without seccomp and with/without a credential change} x program shape (single process; signal-ignoring forked tree; spinning grandchild; thread + forked child) x crash point in {each named host point of Execve (sent, sync-reply, synced, ok-sent, wait), inside SyncFunc, just after the launch hand-shake with the child held by SIGSTOP (the tracer has not seen its first stop yet), inside the first / fourth Handler callback (tracee stopped in a syscall), while the program runs, idle, before Open / Reset, or a random delay of 0..20 ms}; the harness SIGKILLs the controller there; " +
 	"oracle: within 5 s the container init (announced by the controller) and every process carrying the run's tag are gone from the host; non-trivial = a tagged program process was alive when the controller was killed; the enumeration test crosses every point with every shape"
 
 func TestC16Enumerate(t *testing.T) {
@@ -345,10 +388,10 @@ func TestC16Enumerate(t *testing.T) {
 	}
 	defer rec.Write()
 	n := 0
-	for _, op := range []string{"execve", "ptrace", "unshare", "idle", "open", "reset"} {
+	for _, op := range []string{"execve", "ptrace", "ptrace-direct", "unshare", "idle", "open", "reset"} {
 		for _, pt := range c16Points[op] {
 			shapes := []int{0, 1, 2, 3}
-			if op != "execve" && op != "ptrace" && op != "unshare" {
+			if op != "execve" && op != "ptrace" && op != "unshare" && op != "ptrace-direct" {
 				shapes = []int{0}
 			}
 			if !vh.Thorough() && len(shapes) > 2 {
@@ -373,8 +416,11 @@ func TestC16Enumerate(t *testing.T) {
 func TestC16Random(t *testing.T) {
 	rec := vh.NewRecorder(t, "C16", "fault_enumeration", c16Rule)
 	vh.Check(t, rec, func(rt *rapid.T) c16Case {
-		c := c16Case{Op: rapid.SampledFrom([]string{"execve", "execve", "ptrace", "ptrace", "open", "reset", "idle"}).Draw(rt, "op"), Shape: rapid.IntRange(0, 3).Draw(rt, "shape")}
+		c := c16Case{Op: rapid.SampledFrom([]string{"execve", "execve", "ptrace", "ptrace", "ptrace-direct", "ptrace-direct", "open", "reset", "idle"}).Draw(rt, "op"), Shape: rapid.IntRange(0, 3).Draw(rt, "shape")}
 		c.DelayUs = rapid.OneOf(rapid.IntRange(0, 2000), rapid.IntRange(0, 20000)).Draw(rt, "delay")
+		if c.Op == "ptrace-direct" {
+			c.DelayUs %= 3000 // the launch window
+		}
 		return c
 	}, func(c c16Case) error { return c16Run(c, rec) })
 }
